@@ -1,5 +1,6 @@
 """C20 tie + search: the real clientSegmentQueue under a schedule-owning controller vs Model/Queue.v,
-plus a -race stress of the real queue."""
+a -race stress of the real queue, and an end-to-end leg: the real Client (runTraditional) against
+scripted in-memory playlists with the look-ahead oracle (harness/cmd/queue/e2e.go)."""
 import json
 import os
 import re
@@ -11,7 +12,8 @@ META = {
         "hand-written Gallina small-step transcription of client_segment_queue.go (Model/Queue.v: one step per Lock / critical-section piece / Unlock / hook / select-operand evaluation / select), tied to /repo by this correspondence run",
         "Go semantics assumed by the model: close(ch) enables every receiver of ch and a closed channel stays ready; make returns a fresh channel; sync.Mutex excludes; a select with a ready case does not block; sequentially consistent interleaving (the unsynchronised read of q.didPull is given SC semantics in the model, the race itself is reported by the -race leg)",
         "Go harness harness/cmd/queue: controller, hook parking, quiescence detection by stop-the-world goroutine dump (runtime.Stack: '[select]' with top frame inside clientSegmentQueue), property oracle, race-report parser; lib/vlib.py",
-        "sync-skeleton check of client_segment_queue.go in ties/C20.py (decides which model variant, library or fixed, the cases are evaluated with; unknown shapes fail the run)",
+        "sync-skeleton check in ties/C20.py: client_segment_queue.go (decides which model variant, library or fixed, the cases are evaluated with) and the producer program of client_stream_downloader.go (runTraditional's loop 'fillSegmentQueue; waitUntilSizeIsBelow(ctx, 1); downloadPlaylist' and fillSegmentQueue's pushes = Model/Queue.v trad); unknown shapes fail the run",
+        "end-to-end leg (harness/cmd/queue/e2e.go): real gohlslib.Client over an in-memory RoundTripper, MPEG-TS and fMP4, VOD / live / live-ending-with-a-burst, slow (gated on the throttle hook) and fast consumer; oracle 'downloaded - fully processed <= 2 at every segment request', which relies on the stream processors returning from processSegment only after every sample of the segment went through the data callback",
     ],
     "assumptions": [
         "one downloader and one processor goroutine per queue (as in clientStreamDownloader / clientStreamProcessor*), cancellation through the shared context",
@@ -28,8 +30,8 @@ def _norm(body):
     return re.sub(r"[\s;]+", "", body)
 
 
-def _func(src, name):
-    m = re.search(r"func \(q \*clientSegmentQueue\) %s\([^)]*\)[^{]*\{" % name, src)
+def _func(src, name, recv=r"q \*clientSegmentQueue"):
+    m = re.search(r"func \(%s\) %s\([^)]*\)[^{]*\{" % (recv, name), src)
     if not m:
         return None
     i = m.end()
@@ -88,6 +90,39 @@ return true
 """)
 
 
+RUN_TRADITIONAL = _norm("""
+pl := d.firstPlaylist
+for {
+    err := d.fillSegmentQueue(ctx, pl)
+    if err != nil { return err }
+    ok := d.segmentQueue.waitUntilSizeIsBelow(ctx, 1)
+    if !ok { return fmt.Errorf("terminated") }
+    pl, err = d.downloadPlaylist(ctx, false)
+    if err != nil { return err }
+}
+""")
+FILL_TAIL = _norm("""
+byts, err := d.downloadSegment(ctx, seg.URI, seg.ByteRangeStart, seg.ByteRangeLength)
+if err != nil { return err }
+d.segmentQueue.push(&segmentData{ dateTime: seg.DateTime, payload: byts, })
+if pl.Endlist && pl.Segments[len(pl.Segments)-1] == seg {
+    d.segmentQueue.push(nil)
+    <-ctx.Done()
+    return fmt.Errorf("terminated")
+}
+return nil
+""")
+
+
+FILL_EOS = _norm("""
+if pl.Endlist && *d.curSegmentID+1 == pl.MediaSequence+len(pl.Segments) {
+    d.segmentQueue.push(nil)
+    <-ctx.Done()
+    return fmt.Errorf("terminated")
+}
+""")
+
+
 def translate():
     """sync skeleton of client_segment_queue.go: the three functions must have exactly the shape the
     model transcribes; waitUntilSizeIsBelow may be the library's or the fixed variant"""
@@ -114,6 +149,20 @@ def translate():
     ns = re.findall(r"waitUntilSizeIsBelow\(ctx,\s*([^)]+)\)", dl)
     if ns != ["1"]:
         return "client_stream_downloader.go: expected exactly one waitUntilSizeIsBelow(ctx, 1) (runTraditional), found %s" % ns
+    # the producer program the bound theorem is about (Model/Queue.v [trad]): every trip round the loop
+    # is fillSegmentQueue (one push; push(nil) + wait for ctx after the last ENDLIST segment) and THEN
+    # the throttle - no continue / early loop-back between the push and waitUntilSizeIsBelow(ctx, 1)
+    rt = _func(dl, "runTraditional", recv=r"d \*clientStreamDownloader")
+    if rt != RUN_TRADITIONAL:
+        return ("client_stream_downloader.go: runTraditional() no longer has the loop shape 'fillSegmentQueue; "
+                "waitUntilSizeIsBelow(ctx, 1); downloadPlaylist' on every path (Model/Queue.v trad, c20_bound): " + str(rt))
+    fs = _func(dl, "fillSegmentQueue", recv=r"d \*clientStreamDownloader")
+    # (the end-of-stream marker may also be pushed on a later trip, when a reload shows ENDLIST right
+    # after the last downloaded segment: trad_eos)
+    fs = (fs or "").replace(FILL_EOS, "", 1)
+    if not fs.endswith(FILL_TAIL) or fs.count("segmentQueue.push(") != 2:
+        return ("client_stream_downloader.go: fillSegmentQueue() no longer ends with 'one push of the downloaded segment; "
+                "on the last ENDLIST segment push(nil) and wait for ctx' (Model/Queue.v trad_cons / trad_end): " + str(fs)[-400:])
     return None
 
 
@@ -162,6 +211,7 @@ def run(ctx):
     t.extra["model_variant"] = "WaitBelow true (channel captured under the mutex)" if _variant["fixed"] else "WaitBelow false (library: q.didPull evaluated after Unlock)"
     t.extra["hook_releases_observed"] = r["hook_releases_observed"]
     t.extra["distinct_executions"] = r["distinct"]
+    t.extra["e2e_scenarios"] = r.get("e2e_scenarios", 0)
     if ctx["model_available"] and not ctx["widen"]:
         by = {(c["shard"], c["index"]): c for c in (r["cases"] or [])}
         for res in vlib.eval_shards(out):
